@@ -622,7 +622,7 @@ theorem MSComb.next0_some (m : List Int) (k : Int) (hm : MGood m) (hk : 0 < k) (
     (j : Nat) (hs : s.state = some c) (hsm : s.m = m) (hsk : s.k = k) (hsj : s.j = (j : Int))
     (hfam : InFam m k c) (hinv : ISat m c j ∨ IZero m c j) (h : MSComb.next0 s = .ok (s', true)) :
     ∃ c' j', s'.state = some c' ∧ s'.m = m ∧ s'.k = k ∧ s'.j = ((j' : Nat) : Int) ∧ s'.done = s.done ∧
-      s'.value = s.value ∧ InFam m k c' ∧ (ISat m c' j' ∨ IZero m c' j') := by
+      s'.value = s.value ∧ InFam m k c' ∧ (ISat m c' j' ∨ IZero m c' j') ∧ s'.all = s.all ∧ s'.freq = s.freq := by
   have hlen := hm.ne_nil
   have hk0 : (k == 0) = false := by rw [beq_eq_false_iff_ne]; omega
   have hl0 : (m.length == 0) = false := by rw [beq_eq_false_iff_ne]; omega
@@ -678,7 +678,7 @@ theorem MSComb.next0_some (m : List Int) (k : Int) (hm : MGood m) (hk : 0 < k) (
                 | ok c' =>
                   simp only [hset0, Outcome.bind_ok, Outcome.pure_eq, Outcome.ok.injEq, Prod.mk.injEq, and_true] at h
                   obtain ⟨f1, f2⟩ := K1 c' hset0 hx'
-                  refine ⟨c', jn, ?_, ?_, ?_, ?_, ?_, ?_, f1, Or.inr f2⟩ <;> simp [← h, hsm, hsk, ej]
+                  refine ⟨c', jn, ?_, ?_, ?_, ?_, ?_, ?_, f1, Or.inr f2, ?_, ?_⟩ <;> simp [← h, hsm, hsk, ej]
               · have hx'b : (x' == 0) = false := by simpa using hx'
                 simp only [hx'b, Bool.false_eq_true, if_false] at h
                 cases hq2 : MSComb.q2 m m.length 0 x' st3 with
@@ -688,7 +688,7 @@ theorem MSComb.next0_some (m : List Int) (k : Int) (hm : MGood m) (hk : 0 < k) (
                   obtain ⟨c', a, j'', b⟩ := r2
                   simp only [hq2, Outcome.bind_ok, Outcome.pure_eq, Outcome.ok.injEq, Prod.mk.injEq, and_true] at h
                   obtain ⟨j2, e2, f1, f2⟩ := K2 c' a j'' b hq2 hx'
-                  refine ⟨c', j2, ?_, ?_, ?_, ?_, ?_, ?_, f1, Or.inl f2⟩ <;> simp [← h, hsm, hsk, e2]
+                  refine ⟨c', j2, ?_, ?_, ?_, ?_, ?_, ?_, f1, Or.inl f2, ?_, ?_⟩ <;> simp [← h, hsm, hsk, e2]
     · have hsj0 : (s.j == 0) = false := by rw [beq_eq_false_iff_ne, hsj]; omega
       simp only [hsj0, Bool.false_eq_true, if_false] at h
       by_cases hs0 : s0 = 0
@@ -767,7 +767,7 @@ theorem MSComb.next0_some (m : List Int) (k : Int) (hm : MGood m) (hk : 0 < k) (
                       | ok c' =>
                         simp only [hset0, Outcome.bind_ok, Outcome.pure_eq, Outcome.ok.injEq, Prod.mk.injEq, and_true] at h
                         obtain ⟨f1, f2⟩ := K1 c' hset0 hx'
-                        refine ⟨c', jn, ?_, ?_, ?_, ?_, ?_, ?_, f1, Or.inr f2⟩ <;> simp [← h, hsm, hsk, ej]
+                        refine ⟨c', jn, ?_, ?_, ?_, ?_, ?_, ?_, f1, Or.inr f2, ?_, ?_⟩ <;> simp [← h, hsm, hsk, ej]
                     · have hx'b : (x' == 0) = false := by simpa using hx'
                       simp only [hx'b, Bool.false_eq_true, if_false] at h
                       cases hq2 : MSComb.q2 m m.length 0 x' st3 with
@@ -777,7 +777,7 @@ theorem MSComb.next0_some (m : List Int) (k : Int) (hm : MGood m) (hk : 0 < k) (
                         obtain ⟨c', a, j'', b⟩ := r2
                         simp only [hq2, Outcome.bind_ok, Outcome.pure_eq, Outcome.ok.injEq, Prod.mk.injEq, and_true] at h
                         obtain ⟨j2, e2, f1, f2⟩ := K2 c' a j'' b hq2 hx'
-                        refine ⟨c', j2, ?_, ?_, ?_, ?_, ?_, ?_, f1, Or.inl f2⟩ <;> simp [← h, hsm, hsk, e2]
+                        refine ⟨c', j2, ?_, ?_, ?_, ?_, ?_, ?_, f1, Or.inl f2, ?_, ?_⟩ <;> simp [← h, hsm, hsk, e2]
       · -- Q7
         have hs0b : (s0 == 0) = false := by simpa using hs0
         simp only [hs0b, Bool.false_eq_true, if_false, Outcome.pure_eq, Outcome.bind_ok, hsj] at h
@@ -828,7 +828,7 @@ theorem MSComb.next0_some (m : List Int) (k : Int) (hm : MGood m) (hk : 0 < k) (
                         obtain ⟨jf, ejf, f1, f2⟩ := stepQ7 m k hm c j ⟨hl, hbnd, hsum⟩ hsat (by omega) j' hup sj hget
                           c1 hset j2 hdown sj2 hget2 c2 hset2 t0 hget0
                         have ejf' : (if t0 = 0 then 1 else j2) = (jf : Int) := by simpa using ejf
-                        refine ⟨c2, jf, ?_, ?_, ?_, ?_, ?_, ?_, f1, f2⟩ <;> simp [← h, hsm, hsk, ejf']
+                        refine ⟨c2, jf, ?_, ?_, ?_, ?_, ?_, ?_, f1, f2, ?_, ?_⟩ <;> simp [← h, hsm, hsk, ejf']
 
 
 theorem sum_replicate_zero (n : Nat) : (List.replicate n (0 : Int)).sum = 0 := by
@@ -893,7 +893,7 @@ theorem MSComb.next0_none (m : List Int) (k : Int) (hm : ∀ v ∈ m, 0 ≤ v) (
     (hb : msKnownBad m = false) (s s' : MSComb) (hs : s.state = none) (hsm : s.m = m) (hsk : s.k = k)
     (h : MSComb.next0 s = .ok (s', true)) :
     ∃ c, s'.state = some c ∧ s'.m = m ∧ s'.k = k ∧ s'.value.length = k.toNat ∧ InFam m k c ∧
-      (k = 0 ∨ (MGood m ∧ ∃ j : Nat, s'.j = (j : Int) ∧ ISat m c j)) := by
+      (k = 0 ∨ (MGood m ∧ ∃ j : Nat, s'.j = (j : Int) ∧ ISat m c j)) ∧ s'.all = s.all ∧ s'.freq = s.freq := by
   unfold MSComb.next0 at h
   simp only [hs, hsm, hsk] at h
   have hmk : make k = .ok (List.replicate k.toNat 0) := by simp [make]; omega
@@ -918,7 +918,7 @@ theorem MSComb.next0_none (m : List Int) (k : Int) (hm : ∀ v ∈ m, 0 ≤ v) (
       have hk0 : k = 0 := by
         by_contra hne
         have := t3 (by omega); omega
-      refine ⟨c, by simp [← h], by simp [← h, hsm], by simp [← h, hsk], by simp [← h], ⟨hlc, ?_, ?_⟩, Or.inl hk0⟩
+      refine ⟨c, by simp [← h], by simp [← h, hsm], by simp [← h, hsk], by simp [← h], ⟨hlc, ?_, ?_⟩, Or.inl hk0, by simp [← h], by simp [← h]⟩
       · intro i hi; rw [r3 i (by omega) (by omega)]; exact ⟨hnn i hi, Int.le_refl _⟩
       · rw [PS_replicate_zero, PS_replicate_zero] at t5
         rw [sum_replicate_zero] at t5
@@ -937,7 +937,7 @@ theorem MSComb.next0_none (m : List Int) (k : Int) (hm : ∀ v ∈ m, 0 ≤ v) (
         · rw [s6, PS_replicate_zero, PS_replicate_zero]
           rw [sum_replicate_zero]
           omega
-      refine ⟨c, by simp [← h], by simp [← h, hsm], by simp [← h, hsk], by simp [← h], hfam, ?_⟩
+      refine ⟨c, by simp [← h], by simp [← h, hsm], by simp [← h, hsk], by simp [← h], hfam, ?_, by simp [← h], by simp [← h]⟩
       by_cases hk0 : k = 0
       · exact Or.inl hk0
       · right
@@ -1100,88 +1100,5 @@ theorem expandList_length_of_nonneg : ∀ (c : List Int) (i : Int), (∀ v ∈ c
     push_cast
     rw [this, Int.toNat_of_nonneg h0]
 
-
-/-- what holds along a run of `MultisetCombinations(m, k)` outside the known-bad shapes -/
-def MSComb.Good (m : List Int) (k : Int) (s : MSComb) : Prop :=
-  s.m = m ∧ s.k = k ∧
-    (s.state = none ∨ ∃ c, s.state = some c ∧ InFam m k c ∧ s.value.length = k.toNat ∧
-      (k = 0 ∨ (MGood m ∧ ∃ j : Nat, s.j = (j : Int) ∧ (ISat m c j ∨ IZero m c j))))
-
-theorem MSComb.next_true_good (m : List Int) (k : Int) (hm : ∀ v ∈ m, 0 ≤ v) (hk : 0 ≤ k)
-    (hb : msKnownBad m = false) (s s' : MSComb) (hg : MSComb.Good m k s)
-    (h : MSComb.next s = .ok (s', true)) : MSComb.Good m k s' ∧ s'.state ≠ none := by
-  obtain ⟨hsm, hsk, hst⟩ := hg
-  unfold MSComb.next at h
-  split at h
-  · simp at h
-  · cases h0 : MSComb.next0 s with
-    | panic => simp [h0] at h
-    | outOfFuel => simp [h0] at h
-    | ok r =>
-      obtain ⟨s1, b⟩ := r
-      simp only [h0, Outcome.bind_ok] at h
-      cases b with
-      | false => simp at h
-      | true =>
-        simp only [if_true, Outcome.pure_eq, Outcome.ok.injEq, Prod.mk.injEq, and_true] at h
-        subst h
-        rcases hst with hnone | ⟨c, hc, hfam, hval, hcase⟩
-        · obtain ⟨c, e1, e2, e3, e4, f1, f2⟩ := MSComb.next0_none m k hm hk hb s s1 hnone hsm hsk h0
-          refine ⟨⟨e2, e3, Or.inr ⟨c, e1, f1, e4, ?_⟩⟩, by simp [e1]⟩
-          rcases f2 with f2 | ⟨g1, j, g2, g3⟩
-          · exact Or.inl f2
-          · exact Or.inr ⟨g1, j, g2, Or.inl g3⟩
-        · rcases hcase with hk0 | ⟨hgood, j, hj, hinv⟩
-          · exfalso
-            unfold MSComb.next0 at h0
-            simp [hc, hsk, hk0] at h0
-          · obtain ⟨c', j', e1, e2, e3, e4, _, e6, f1, f2⟩ :=
-              MSComb.next0_some m k hgood (by
-                rcases Int.lt_or_eq_of_le hk with h1 | h1
-                · exact h1
-                · exfalso
-                  unfold MSComb.next0 at h0
-                  simp [hc, hsk, ← h1] at h0) s s1 c j hc hsm hsk hj hfam hinv h0
-            exact ⟨⟨e2, e3, Or.inr ⟨c', e1, f1, by rw [e6]; exact hval, Or.inr ⟨hgood, j', e4, f2⟩⟩⟩, by simp [e1]⟩
-
-/-- every count vector yielded by `MultisetCombinations(m, k)` is a member of the family, for all `m ≥ 0` outside
-the known-bad shapes and all `k ≥ 0` -/
-theorem MSComb.outputs_in_family_lemma (m : List Int) (k : Int) (hm : ∀ v ∈ m, 0 ≤ v) (hk : 0 ≤ k)
-    (hb : msKnownBad m = false) (bound : Nat) :
-    ∀ p ∈ (outputs MSComb.it bound (MSComb.init m k)).1, p.1 ∈ msFamily m k ∧ p.2 = expandList 0 p.1 := by
-  have key := collect_inv2 MSComb.it (MSComb.Good m k) (fun s => MSComb.Good m k s ∧ s.state ≠ none)
-    (fun p => p.1 ∈ msFamily m k ∧ p.2 = expandList 0 p.1)
-    (fun s s' hs hn => MSComb.next_true_good m k hm hk hb s s' hs hn)
-    (by
-      rintro s s' v ⟨⟨hsm, hsk, hst⟩, hne⟩ hv
-      simp only [MSComb.it, MSComb.valueOp] at hv
-      cases he : MSComb.expand (s.state.getD []) 0 0 s.value with
-      | panic => simp [he] at hv
-      | outOfFuel => simp [he] at hv
-      | ok val =>
-        simp only [he, Outcome.bind_ok, Outcome.pure_eq, Outcome.ok.injEq, Prod.mk.injEq] at hv
-        obtain ⟨e1, e2⟩ := hv
-        subst e1 e2
-        rcases hst with hnone | ⟨c, hc, hfam, hval, hcase⟩
-        · exact absurd hnone hne
-        · simp only [hc, Option.getD_some] at he ⊢
-          obtain ⟨x1, x2⟩ := expand_spec c 0 [] s.value val (by simpa using he)
-          simp only [List.nil_append] at x1 x2
-          have hnn : ∀ v ∈ c, 0 ≤ v := by
-            intro v hv
-            obtain ⟨i, hi, rfl⟩ := List.getElem_of_mem hv
-            have := (hfam.2.1 i (by rw [← hfam.1]; exact hi)).1
-            simpa [G, List.getD_eq_getElem?_getD, List.getElem?_eq_getElem hi] using this
-          have hlen := expandList_length_of_nonneg c 0 hnn
-          rw [hfam.2.2] at hlen
-          have hdrop : s.value.drop (expandList 0 c).length = [] := by
-            apply List.drop_eq_nil_of_le
-            rw [hval]; omega
-          rw [hdrop, List.append_nil] at x1
-          refine ⟨⟨hsm, hsk, Or.inr ⟨c, by simp, hfam, by rw [← x2]; exact hval, hcase⟩⟩, mem_msFamily_of_InFam m k c hfam, x1⟩)
-    bound (MSComb.init m k) [] ⟨rfl, rfl, Or.inl rfl⟩ (by simp)
-  intro p hp
-  simp only [outputs, List.mem_reverse] at hp
-  exact key p hp
 
 end Iter
